@@ -226,7 +226,7 @@ def oracle(c, o):
         return [("C04", "walker-harness-error", "harness error: " + str(o["error"]))]
     if o.get("hang"):
         spurious = [m for m in c.get("fail", []) if c.get("failKind", [])[m:m + 1] == ["spurious-cancel"]]
-        if spurious and not c.get("cancelAfterEvents") and not c.get("cancelAtUs") and not c.get("preCancel"):
+        if spurious and c.get("cancelAfterEvents", -1) < 0 and not c.get("cancelAtUs") and not c.get("preCancel"):
             return [("C04", "walker-hang-spurious-cancel", "Walk did not return within the time bound; nobody cancelled the walk context but "
                      f"the callbacks of {spurious[:5]} return an error wrapping context.Canceled")]
         return [("C04", "walker-hang", "Walk did not return within the time bound")]
